@@ -59,6 +59,8 @@
 //	f.M(..) inside an expression (M assigns receiver fields / can panic) → bound to a fresh variable in front of the
 //	                            statement, in Go's order of evaluation (lexical, arguments before the call); refused
 //	                            under && / ||, in loop conditions, and when the statement also reads a field it assigns.
+//	[n]int / [...]intN arrays → List (BitVec w): composite literals and indexed loads (getD … 0) only; a local const
+//	                            declaration is skipped (uses are translated as the constant's value).
 //	nil slices are the empty list (x == nil on a slice is refused).
 //	"segments": a consecutive run of statements of a function, translated as a function of the variables it reads
 //	to the variables it assigns (or to its return value).
@@ -256,6 +258,9 @@ func (t *tr) tyOf(T types.Type) (ty, bool) {
 		if e, ok := t.tyOf(u.Elem()); ok && e.kind == "bv" && e.w == 8 && !e.signed {
 			return ty{kind: "bytes"}, true
 		}
+		if e, ok := t.tyOf(u.Elem()); ok && e.kind == "bv" {
+			return ty{kind: "ints", elems: []ty{e}}, true // an array of integers (read-only: literal, index)
+		}
 	case *types.Tuple:
 		var es []ty
 		for i := 0; i < u.Len(); i++ {
@@ -278,6 +283,8 @@ func (y ty) lean() string {
 		return fmt.Sprintf("BitVec %d", y.w)
 	case "bytes":
 		return "List (BitVec 8)"
+	case "ints":
+		return "List (" + y.elems[0].lean() + ")"
 	case "tuple":
 		var s []string
 		for _, e := range y.elems {
@@ -403,6 +410,10 @@ func (t *tr) expr(e ast.Expr) string {
 			t.notes = append(t.notes, fmt.Sprintf("%s: index %s totalised (getD … 0)", t.curFn, src(t.fset, x)))
 			return "(" + t.expr(x.X) + ".getD " + t.natOf(x.Index) + " 0#8)"
 		}
+		if y, ok := t.typeOfExpr(x.X); ok && y.kind == "ints" {
+			t.notes = append(t.notes, fmt.Sprintf("%s: index %s totalised (getD … 0)", t.curFn, src(t.fset, x)))
+			return fmt.Sprintf("(%s.getD %s 0#%d)", t.expr(x.X), t.natOf(x.Index), y.elems[0].w)
+		}
 		return t.fail(e, "index of non-byte-slice")
 	case *ast.SliceExpr:
 		if y, ok := t.typeOfExpr(x.X); ok && y.kind == "bytes" && !x.Slice3 {
@@ -422,6 +433,16 @@ func (t *tr) expr(e ast.Expr) string {
 		return t.fail(e, "slice expression")
 	case *ast.CompositeLit:
 		if y, ok := t.typeOfExpr(e); ok && y.kind == "bytes" {
+			var es []string
+			for _, el := range x.Elts {
+				if _, kv := el.(*ast.KeyValueExpr); kv {
+					return t.fail(e, "keyed composite literal")
+				}
+				es = append(es, t.expr(el))
+			}
+			return "[" + strings.Join(es, ", ") + "]"
+		}
+		if y, ok := t.typeOfExpr(e); ok && y.kind == "ints" {
 			var es []string
 			for _, el := range x.Elts {
 				if _, kv := el.(*ast.KeyValueExpr); kv {
@@ -1317,6 +1338,9 @@ func (t *tr) stmts(list []ast.Stmt, tail func() string, results []string) string
 		return t.pad() + t.ret(es) + "\n"
 	case *ast.DeclStmt:
 		gd, ok := x.Decl.(*ast.GenDecl)
+		if ok && gd.Tok == token.CONST {
+			return cont() // a local constant: its uses are translated as its value
+		}
 		if !ok || gd.Tok != token.VAR {
 			return t.pad() + t.fail(s, "declaration") + "\n"
 		}
